@@ -306,6 +306,18 @@ func (p *Parser) ParseProgram() (*ast.Program, error) {
 		}
 	}
 
+	// A text and a movement can't share a label either, whichever of them is auto-generated.
+	for i, text := range program.Texts {
+		if movementStmt, ok := movementNames[text.Name]; ok && !p.sawUnresolvedPoryswitch {
+			clashToken := text.Token
+			if i < len(p.inlineTexts) {
+				// The text is auto-generated, so the movement statement is the one the user named.
+				clashToken = movementStmt.Token
+			}
+			return nil, NewParseError(clashToken, fmt.Sprintf("duplicate label '%s'. A text and a movement can't share a label. Choose a unique label that won't clash with the auto-generated text and movement labels", text.Name))
+		}
+	}
+
 	return program, nil
 }
 
